@@ -12,7 +12,8 @@ Oracles (numpy index arithmetic and float64 geometry, independent of abTEM):
 * block_direct: every pixel gets its *true* scattering angle from its frequency index (shifted:
   i - n//2, unshifted: fftfreq order) and our own wavelength.  Pixels with angle < R - eps must be zero,
   pixels with angle > R + eps must be bit-identical to the input, pixels in the eps-band may be either
-  (sandwich); R is the effective radius the docstring defines (explicit / semiangle_cutoff / 1.0001 pixel,
+  (sandwich; in particular radius=0 leaves the fate of the zero-angle pixel open: abTEM's float32 linspace
+  coordinates do not give it the exact angle 0 on even grids); R is the effective radius the docstring defines (explicit / semiangle_cutoff / 1.0001 pixel,
   plus one pixel of margin when requested or implied by semiangle_cutoff).
 """
 import numpy as np
@@ -27,7 +28,7 @@ RULE = ("(a) random complex Waves on odd/even/rectangular grids 5-64 with 0-2 en
         "odd/even/rectangular, fftshift True/False, anisotropic sampling, radius explicit/default, margin None/True/False, with and "
         "without semiangle_cutoff metadata, ensembles, eager/lazy; non-trivial = cropped shape differs from the grid in an axis, or "
         "a blocked disc with pixels inside and outside; distinct = distinct case signature")
-CLAUSES = ["full-values", "crop-centred", "unshifted-is-ifftshift", "parity", "limits", "crop-method", "crop-method-unshifted",
+CLAUSES = ["full-values", "crop-centred", "unshifted-is-ifftshift", "parity", "angle-range", "limits", "crop-method", "crop-method-unshifted",
            "block-inside-zero", "block-outside-unchanged", "block-unshifted", "block-in-pipeline"]
 QUICK = dict(n=260, time=40)
 THOROUGH = dict(n=8000, time=300, shards=16)
@@ -63,7 +64,8 @@ def gen(rng, tier):
             "energy": energy, "fftshift": bool(rng.random() < 0.5), "axes": spec, "chunks": [int(rng.integers(1, 4)) for _ in spec],
             "lazy": bool(rng.random() < 0.3), "dtype": str(rng.choice(["float32", "float64"])),
             # radius in units of the larger angular pixel: None = default
-            "radius_px": (None if rk < 0.35 else float(rng.choice([0.5, 1.0, 1.5, 2.0, float(rng.uniform(0.2, 0.45 * min(nx, ny)))]))),
+            "radius_px": (None if rk < 0.35 else float(rng.choice([0.0, 0.5, 1.0, 1.5, 2.0, float(rng.uniform(0.2, 0.45 * min(nx, ny))),
+                                                                    float(rng.uniform(0.2, 0.45 * min(nx, ny)))]))),
             "margin": [None, True, False][int(rng.integers(0, 3))],
             "semiangle_px": (None if rng.random() < 0.5 else float(rng.uniform(0.5, 0.3 * min(nx, ny)))),
             "seed": int(rng.integers(0, 2 ** 31))}
@@ -128,7 +130,7 @@ def check_waves(ctx, case):
     a = a.astype(np.complex128 if f64 else np.complex64)
     ref = np.abs(L.direct_dft2(a)) ** 2
     ref_shift = np.fft.fftshift(ref, axes=(-2, -1))
-    rt = 1e-11 if f64 else 5e-6
+    rt = 1e-11 if f64 else 1e-5
     with abtem.config.set({"precision": case["precision"]}):
         arr = L.chunk_array(a, case["chunks"]) if case["lazy"] else a.copy()
         w = abtem.Waves(arr, energy=case["energy"], extent=tuple(case["extent"]), ensemble_axes_metadata=L.make_axes(spec))
@@ -162,6 +164,11 @@ def check_waves(ctx, case):
             ctx.expect((n % 2, m % 2) == want, "parity", shape=[n, m], grid=[nx, ny], parity=case["parity"], max_angle=max_angle)
         else:
             ctx.expect((n, m) == (nx, ny), "parity", what="full pattern must have the wave grid", shape=[n, m])
+        # an angle-limited pattern reaches the requested angle on both axes (and stops within ~2 pixels of it)
+        if case["max_angle"] == "float":
+            for nn, pp in ((n, px), (m, py)):
+                ctx.expect(max_angle * (1 - 1e-9) <= (nn // 2) * pp <= max_angle + 2.5 * pp, "angle-range", max_angle=max_angle,
+                           pixels=nn, pixel=pp, reach=(nn // 2) * pp)
         # coordinates of the shifted pattern: zero frequency on pixel n//2
         lim = dpT.limits
         ctx.close([lim[0][0], lim[0][1], lim[1][0], lim[1][1]],
@@ -254,6 +261,9 @@ def fixed_cases(tier):
         for sh in (False, True):
             out.append({"kind": "block", "gpts": g, "sampling": [0.05, 0.04], "energy": 100e3, "fftshift": sh, "axes": [], "chunks": [],
                         "lazy": False, "dtype": "float32", "radius_px": None, "margin": None, "semiangle_px": None, "seed": 5})
+    for sh in (False, True):
+        out.append({"kind": "block", "gpts": [7, 6], "sampling": [0.05, 0.04], "energy": 100e3, "fftshift": sh, "axes": [], "chunks": [],
+                    "lazy": False, "dtype": "float64", "radius_px": 0.0, "margin": False, "semiangle_px": None, "seed": 6})
     out.append({"kind": "waves", "gpts": [15, 12], "extent": [9.0, 7.0], "energy": 100e3, "axes": [{"k": "O", "n": 2}], "chunks": [1],
                 "lazy": False, "precision": "float32", "max_angle": "float", "frac": 0.5, "parity": "odd", "crop_gpts": [7, 4],
                 "crop_frac": 0.4, "block": 1.5, "seed": 11})
